@@ -121,3 +121,37 @@ def C07_comment_inside_shared_imp(case, params):
     if not hit:
         return False
     return rt.c07_check(dict(c, text="\n".join(out)), case.get("prog", [])) is None
+
+
+def C07_comment_inside_interpolate(case, params):
+    """F-C07-comment-inside-interpolate: a line that ends with an interpolate shortcut ('nI' / 'nILOG') followed by a
+    '$' comment (or by a 'c' comment line) before the value it interpolates to, and an edit of a list value of that
+    card.  Ablation: the same text without that comment."""
+    import rt, spec
+    if case.get("kind") != "comments-changed":
+        return False
+    c = case["case"]
+    if not any(e.get("kind") in ("surface_constant", "tr_displacement") for e in case.get("prog", [])):
+        return False
+    lines = c["text"].split("\n")
+    out = []
+    hit = False
+    pending = False
+    for l in lines:
+        x = l.expandtabs(8)
+        if pending and spec.is_comment_line(x):
+            hit = True
+            continue
+        data = _comment_free(x)
+        if re.search(r"(^|\s)\d*i(log)?\s*$", data.lower()):
+            pending = True
+            if "$" in x:
+                hit = True
+                out.append(data)
+                continue
+        elif data.strip():
+            pending = False
+        out.append(l)
+    if not hit:
+        return False
+    return rt.c07_check(dict(c, text="\n".join(out)), case.get("prog", [])) is None
